@@ -12,7 +12,8 @@ RULE = sqlmon.RULE_HISTORIES + ' Reports always carry the instance the attempt w
 ASSUMPTIONS = sqlmon.COMMON_ASSUMPTIONS
 SHARDS = {'quick': 4, 'thorough': 16}
 TIMEOUT = {'quick': 900, 'thorough': 3600}
-FLOORS = {'sql_routine:add_attempt': 200, 'sql_routine:unschedule_job': 5, 'sql_routine:deactivate_instance': 20, 'instances_with_open_attempts_checked': 200}
+FLOORS = {'sql_routine:add_attempt': 200, 'sql_routine:unschedule_job': 5, 'sql_routine:deactivate_instance': 20, 'instances_with_open_attempts_checked': 200, 'in_memory_free_cores_compared': 2000,
+          'worker_job_started_overtook_schedule_job': 5}
 
 
 class FreeCores(Monitor):
@@ -27,6 +28,29 @@ class FreeCores(Monitor):
             self.r.violation(key, what, wit)
 
 
+class InMemory(Monitor):
+    """the scheduler places jobs by the in-memory copy (Instance.free_cores_mcpu): at quiescent points (an operation has
+    returned, nothing is in flight) it must equal the recorded value for every live instance the driver tracks"""
+
+    def __init__(self, p):
+        self.p = p
+
+    def on_op(self, rec, v):
+        T = v.eng.tables
+        w = self.r.w
+        for inst in list(w.instances.values()):
+            row = T['instances'].pk_get(inst.name)
+            if row is None or row['state'] != inst.state or inst.state not in ('pending', 'active'):
+                continue
+            fr = T['instances_free_cores_mcpu'].pk_get(inst.name)
+            if fr is None:
+                continue
+            self.r.ctx.count('in_memory_free_cores_compared')
+            if inst.free_cores_mcpu != fr['free_cores_mcpu']:
+                self.r.violation('in-memory/differs-from-recorded', f'instance {inst.name} ({inst.state}): in-memory free_cores_mcpu={inst.free_cores_mcpu}, recorded {fr["free_cores_mcpu"]} after {rec["op"]}',
+                                 {'instance': inst.name, 'memory': inst.free_cores_mcpu, 'recorded': fr['free_cores_mcpu'], 'op': rec['op']})
+
+
 def run(ctx):
-    sqlmon.standard_run(ctx, lambda p: [FreeCores(p)],
+    sqlmon.standard_run(ctx, lambda p: [FreeCores(p), InMemory(p)],
                         cfg={'weights': {'job_complete': 14, 'job_started': 8, 'unschedule': 8, 'cancel_running': 4, 'deactivate_instance': 3, 'create_instance': 3, 'activate_instance': 3, 'jpim_create': 4, 'jpim_schedule': 4}})
